@@ -710,6 +710,24 @@ def r7_null(ctx, prog):
             else:
                 r.violation(f['qname'], 'unchecked %s' % v, '%s holds the %s and reaches line %s without a NULL test: undefined behaviour / exception (-> exit) for inputs that make it NULL' % (v, why, line), file=f['file'], line=line, path=path)
 
+    # the OpenSSL parsers that are fed caller-supplied or stored bytes (d2i_*) return NULL for anything malformed: their result is tested before it is dereferenced
+    ext = {c['callee'] for f in prog.functions.values() for c in calls(f['body']) if re.fullmatch(r'd2i_\w+', c.get('callee') or '')}
+    n = 0
+    for f in sorted(prog.functions.values(), key=lambda f: (f['file'], f['line'])):
+        if not any(c.get('callee') in ext for c in calls(f['body'])) or unanalysable(f):
+            continue
+        ctx.analysed(f)
+        n += 1
+        a = NullDeref(f, prog, ext).go()
+        r.paths += a.paths_returned
+        if not a.found:
+            r.ok(f['qname'], 'results of d2i_* parsers', 'tested before use on every abstract path', file=f['file'], line=f['line'])
+        for (kind, v, line), (why, path) in sorted(a.found.items()):
+            r.violation(f['qname'], 'unchecked %s' % v, '%s holds the %s (malformed input) and is dereferenced / handed to a NULL-intolerant function at line %s without a NULL test: the library crashes on a malformed encoding' % (v, why, line),
+                        file=f['file'], line=line, path=path)
+    if ext and n < 5:
+        r.undecided('OpenSSL back end', 'd2i_* users', 'only %d functions using d2i_* parsers were analysed (expected at least 5)' % n, file='', line=0)
+
 
 # --------------------------------------------------------------------------------------- R8: no free after ownership went to the session
 def owning_setters(prog):
@@ -834,6 +852,40 @@ def r9_slot_table(ctx, prog):
         r.undecided('SlotManager', 'writers', 'no function changes the slot table: anchor lost', file='', line=0)
 
 
+def r10_retrieve_kinds(ctx, prog):
+    """C_GetAttributeValue compares the caller's buffer with the size the ATTRIBUTE promises (its fixed size, or the size of the stored value for variable attributes) and then copies
+    according to the kind of the STORED attribute.  The store is a file anybody may have damaged: for every (fixed size, stored kind) pair the number of bytes written - and read from the
+    stored value - must not exceed the size that was checked."""
+    r = ctx.rule('C17.R10', 'P11Attribute::retrieve never copies more than the size it checked, whatever kind the object store returns for the attribute', floor=15, engine='E1 finite-domain evaluation')
+    f = prog.fn('P11Attribute::retrieve')
+    ctx.analysed(f)
+    KINDS = ['Boolean', 'UnsignedLong', 'ByteString', 'MechanismTypeSet', 'AttributeMap']
+    for size in (1, 8, -1):
+        for k in KINDS:
+            cenv = {'size': size if size > 0 else 2 ** 64 - 1, 'checks': 0, 'osobject': 1, param_name(f, 3): 1, param_name(f, 2): 1, '*' + param_name(f, 3): 4096, param_name(f, 1): 0,
+                    re.compile(r'attributeExists(@\d+)?\(.*\)'): 1, re.compile(r'size\(get\w+Value(@\d+)?\(.*\)\)'): 16}
+            for kk in KINDS:
+                cenv[re.compile(r'is%sAttribute(@\d+)?\(.*\)' % kk)] = int(kk == k)
+            o = Outcomes(f, prog, cenv=cenv, record_calls={'memcpy', 'retrieveAttributeMap'})
+            o.CAP = 64
+            o.LOOP_ROUNDS = 1
+            o.go()
+            r.paths += len(o.outcomes)
+            wr = sorted({(e[1], e[3]) for oc in o.outcomes for e in oc['events'] if e[0] == 'call' or (e[0] == 'write' and re.search(r'\b(%s|pTemplate)\b' % param_name(f, 2), e[1]))})
+            site = 'fixed size %s, stored as %s' % (size if size > 0 else 'none (variable)', k)
+            written = {'Boolean': 1, 'UnsignedLong': 8}.get(k)
+            consistent = (size == -1 and written is None) or (written is not None and size == written)
+            harmless = written is not None and size > 0 and written <= size
+            if not o.outcomes:
+                r.undecided(f['qname'], site, 'no path', file=f['file'], line=f['line'])
+            elif wr and not consistent and not harmless:
+                r.violation(f['qname'], site, 'the buffer is checked against %s byte(s) and then %s (line %s): an object file that stores the attribute with this kind makes C_GetAttributeValue %s' % (
+                    size, 'an unsigned long (8 bytes) is stored into it' if k == 'UnsignedLong' else 'a value of unrelated length is copied', wr[0][1],
+                    'write past the caller\'s buffer' if k != 'ByteString' else 'read past the stored value'), file=f['file'], line=wr[0][1])
+            else:
+                r.ok(f['qname'], site, 'copies %s' % (', '.join('%s@%s' % w for w in wr) if wr else 'nothing: rejected'), file=f['file'], line=f['line'])
+
+
 def run(ctx):
     prog = ctx.prog('ossl-file')
     r1_arrays(ctx, prog)
@@ -845,9 +897,14 @@ def run(ctx):
     r7_null(ctx, prog)
     r8_ownership(ctx, prog)
     r9_slot_table(ctx, prog)
+    r10_retrieve_kinds(ctx, prog)
 
 
 MUTANTS = [
+    dict(name='retrieve-trusts-stored-kind', rule='C17.R10', file='src/lib/P11Attributes.cpp', after='CK_RV P11Attribute::retrieve(',
+         old='\telse if (!(attr.isBooleanAttribute() && size == sizeof(CK_BBOOL)) &&\n\t\t !(attr.isUnsignedLongAttribute() && size == sizeof(CK_ULONG)))\n', new='\telse if (false)\n'),
+    dict(name='bytestring2oid-unchecked-printablestring', rule='C17.R7', file='src/lib/crypto/OSSLUtil.cpp', after='int OSSL::byteString2oid(',
+         old='\t\tif (curve_name == NULL)\n\t\t{\n\t\t\treturn NID_undef;\n\t\t}\n', new=''),
     dict(name='findinit-registers-before-failing-exits', rule='C17.R8', file='src/lib/SoftHSM.cpp', after='CK_RV SoftHSM::C_FindObjectsInit',
          old='\tFindOperation *findOp = FindOperation::create();', new='\tFindOperation *findOp = FindOperation::create();\n\tsession->setFindOp(findOp);'),
     dict(name='generategeneric-no-template-guard', rule='C17.R1', function='generateGeneric', file='src/lib/SoftHSM.cpp', after='CK_RV SoftHSM::generateGeneric',
